@@ -341,6 +341,9 @@ class Registry:
             return VExtClass(key)
         if modname in ("typing", "collections.abc", "__future__"):
             return VExtClass(key)
+        if modname.split(".")[0] in ("icalendar", "vobject", "dateutil", "zoneinfo", "datetime") and (
+                attr[:1].isupper() or (attr[:1] == "v" and attr[1:2].isupper())):
+            return VExtClass(key)  # a dependency class: only used in isinstance tests / constructors
         raise Unsupported(f"external {key} has no model (assumed contract missing)")
 
     def extclass_attr(self, it, clsv: VExtClass, name):
